@@ -69,7 +69,7 @@ def refillRules : List RefillRule := [
     why := "an expiry stopped by a safe apply leaves its caller one tick" },
   { site := ("lib/rc/rc.cpp", "init_config", "CONFIG_INT (__MAX_EVAL_COST__) = 1;"), kind := .configClamp,
     why := "the budget read from the config file is at least 1" },
-  { site := ("lib/rc/rc.cpp", "init_config", "CONFIG_INT (__MAX_EVAL_COST__) = scan_config_i (config, \"\", 0, 1000000);"), kind := .configSet,
+  { site := ("lib/rc/rc.cpp", "init_config", "CONFIG_INT (__MAX_EVAL_COST__) = scan_config_i (config, \"\", 0, N);"), kind := .configSet,
     why := "the budget is read from the config file" },
   { site := ("src/apply.c", "safe_apply", "eval_cost = 1;"), kind := .safeOneTick,
     why := "an expiry stopped by a safe apply leaves its caller one tick" },
